@@ -1,5 +1,6 @@
 import HaqqModel.Model.StateDB
 import HaqqModel.Driver.Util
+import HaqqModel.Driver.Script
 
 namespace Haqq.Driver.C05
 open Haqq.SDB
@@ -93,7 +94,7 @@ def step (st : St) : List String → St × String
     | _, _ => (st, "bad-op")
   | ["createacct", a] => (match a.toNat? with | some a => ({ db := createAccount st.db a }, "ok") | none => (st, "bad-op"))
   | ["sync"] => ({ db := syncBalances st.db addrs }, "ok")
-  | "ptx" :: _ => (st, "skip")
+  | "ptx" :: rest => (st, Haqq.Driver.Script.step rest)
   | "dtx" :: _ => (st, "skip")
   | ["noop"] => (st, "ok")
   | ["dump"] => ({ db := loadAll st.db }, dump st.db)
